@@ -40,6 +40,10 @@ pub struct PsoCase {
     pub hi: f64,
     pub iters: u32,
     pub seed: u64,
+    /// Some(r): the run is assembled from the generic `pso` template with a swarm initialisation whose velocity range
+    /// is r x domain width, independent of the update's v_max (the shipped `real_pso` uses v_max for both)
+    #[serde(default)]
+    pub vinit_rel: Option<f64>,
 }
 
 type W = InertiaWeight<ParticleVelocitiesUpdate<Global>>;
@@ -238,7 +242,7 @@ impl Check for PsoCheck {
         "C18/pso-run".into()
     }
     fn classes(&self) -> &'static [&'static str] {
-        &["a velocity component was clamped", ">= 3 passes", "a personal best improved", "inertia only (c1 = c2 = 0)", "single particle", "v_max small relative to the domain"]
+        &["a velocity component was clamped", ">= 3 passes", "a personal best improved", "inertia only (c1 = c2 = 0)", "single particle", "v_max small relative to the domain", "initial velocities beyond the update's v_max"]
     }
     fn oracle(&self, c: &PsoCase) -> Outcome {
         let mut cl = 0;
@@ -253,7 +257,14 @@ fn pso_oracle(c: &PsoCase, cl: &mut u64) -> Result<(), Failure> {
     let tpl = Tpl::Pso { n: c.n, w0: c.w0, w1: c.w1, c1: c.c1, c2: c.c2, vmax };
     let inst = Inst::Real { dim: c.dim, kind: c.kind, lo: c.lo, hi: c.hi };
     let problem = real_of(&inst);
-    let cfg = match build_real(&tpl, c.iters).unwrap() {
+    let built = match c.vinit_rel {
+        None => build_real(&tpl, c.iters).unwrap(),
+        Some(r) => generic_pso(c, r * width, vmax),
+    };
+    if c.vinit_rel.map_or(false, |r| r > c.vmax_rel) {
+        *cl |= 64;
+    }
+    let cfg = match built {
         Ok(cfg) => cfg,
         Err(e) => return soft_fail(Failure::new("C18 real_pso constructor rejects valid parameters", format!("{c:?}: {e:#}"))),
     };
@@ -288,6 +299,30 @@ fn pso_oracle(c: &PsoCase, cl: &mut u64) -> Result<(), Failure> {
     }
     ensure_that!(a.velocity_updates == c.iters && a.weight_updates == c.iters, "C18 number of swarm updates", "{c:?}: {} velocity updates and {} weight updates in {} iterations", a.velocity_updates, a.weight_updates, c.iters);
     Ok(())
+}
+
+/// `real_pso` re-assembled from the generic `pso` template, with its own velocity range for the swarm initialisation.
+fn generic_pso(c: &PsoCase, v_init: f64, v_max: f64) -> mahf::ExecResult<mahf::Configuration<RealP>> {
+    use mahf::{
+        components::{boundary, initialization, mapping, swarm},
+        conditions::LessThanN,
+        heuristics::pso::{pso, Parameters},
+    };
+    Ok(mahf::Configuration::builder()
+        .do_(initialization::RandomSpread::new(c.n))
+        .evaluate()
+        .update_best_individual()
+        .do_(pso::<RealP, Global>(
+            Parameters {
+                particle_init: swarm::pso::ParticleSwarmInit::new(v_init)?,
+                particle_update: swarm::pso::ParticleVelocitiesUpdate::new(c.w0, c.c1, c.c2, v_max)?,
+                constraints: boundary::Saturation::new(),
+                inertia_weight_update: Some(mapping::Linear::new(c.w0, c.w1, ValueOf::<Progress<ValueOf<Iterations>>>::new(), ValueOf::<W>::new())),
+                state_update: swarm::pso::ParticleSwarmUpdate::new(),
+            },
+            LessThanN::iterations(c.iters),
+        ))
+        .build())
 }
 
 #[derive(Clone, Debug, Serialize, Deserialize)]
@@ -338,16 +373,16 @@ fn pso_strategy(max_iters: u32) -> impl Strategy<Value = PsoCase> {
         prop_oneof![2 => Just(0.0), 5 => 0.0f64..2.5],
         prop_oneof![Just(0.001), Just(0.1), Just(1.0), Just(10.0)],
         1usize..6,
-        prop_oneof![Just(RealKind::Sphere), Just(RealKind::Rastrigin), Just(RealKind::Slope), Just(RealKind::ShiftedOutside), Just(RealKind::Plateau)],
+        prop_oneof![2 => Just(RealKind::Sphere), 2 => Just(RealKind::Rastrigin), 2 => Just(RealKind::Slope), 2 => Just(RealKind::ShiftedOutside), 2 => Just(RealKind::Plateau), 3 => Just(RealKind::Infeasible)],
         prop_oneof![Just((-5.0, 5.0)), Just((0.0, 1.0)), Just((3.0, 7.0)), Just((-100.0, 100.0))],
         1u32..=max_iters,
-        any::<u64>(),
+        (any::<u64>(), prop_oneof![3 => Just(None), 1 => prop_oneof![Just(0.001), Just(0.1), Just(1.0), Just(10.0), Just(50.0)].prop_map(Some)]),
     )
-        .prop_map(|(n, w0, w1, c1, c2, vmax_rel, dim, kind, (lo, hi), iters, seed)| PsoCase { n, w0, w1, c1, c2, vmax_rel, dim, kind, lo, hi, iters, seed })
+        .prop_map(|(n, w0, w1, c1, c2, vmax_rel, dim, kind, (lo, hi), iters, (seed, vinit_rel))| PsoCase { n, w0, w1, c1, c2, vmax_rel, dim, kind, lo, hi, iters, seed, vinit_rel })
 }
 
 pub fn run_all(ctx: &mut Ctx, replay: Option<&Path>) {
-    ctx.rule("case = real_pso run (swarm 1-12, dim 1-5, start/end weight in [0,1.2], c1/c2 in [0,2.5] incl. both 0, v_max in {0.001, 0.1, 1, 10} x domain width, 5 objective kinds, 4 domains, 1-20 iterations, seed) audited at every component step: after each velocity update |v| <= v_max, x_after == x_before + v_new exactly, particles unevaluated, v_new inside the interval hull w*v_old + [0,c1](xp-x) + [0,c2](xg-x) computed with the STORED inertia weight (exactly clamp(w*v_old) when c1 = c2 = 0); after each inertia mapping weight == (end-start)*progress+start bit-exactly with the loop's current progress; after each swarm update every personal best == min over that particle's evaluated history (harness-tracked), a member of it, never worse, global best == best personal best; one velocity / personal best per particle at every step; non-trivial = a step where a velocity component was clamped, or >= 3 passes with a personal-best improvement; plus direct velocity-update cases with mismatched collection sizes (documented errors); distinct by case");
+    ctx.rule("case = real_pso run (swarm 1-12, dim 1-5, start/end weight in [0,1.2], c1/c2 in [0,2.5] incl. both 0, v_max in {0.001, 0.1, 1, 10} x domain width, 6 objective kinds incl. one that is +inf on half of the domain, 4 domains, 1-20 iterations, seed; a quarter of the runs assembled from the generic pso template with initial velocities drawn from a range independent of - also larger than - the update's v_max) audited at every component step: after each velocity update |v| <= v_max, x_after == x_before + v_new exactly, particles unevaluated, v_new inside the interval hull w*v_old + [0,c1](xp-x) + [0,c2](xg-x) computed with the STORED inertia weight (exactly clamp(w*v_old) when c1 = c2 = 0); after each inertia mapping weight == (end-start)*progress+start bit-exactly with the loop's current progress; after each swarm update every personal best == min over that particle's evaluated history (harness-tracked), a member of it, never worse, global best == best personal best; one velocity / personal best per particle at every step; non-trivial = a step where a velocity component was clamped, or >= 3 passes with a personal-best improvement; plus direct velocity-update cases with mismatched collection sizes (documented errors); distinct by case");
     let p = PsoCheck;
     let m = MismatchCheck;
     if let Some(path) = replay {
